@@ -307,3 +307,168 @@ Proof.
 Qed.
 
 End ListPasses.
+
+Lemma list_eq_nth {A} (a b : list A) : (forall j, nth_error a j = nth_error b j) -> a = b.
+Proof.
+  revert b; induction a as [|x a IH]; intros [|y b] H.
+  - reflexivity.
+  - specialize (H 0). discriminate.
+  - specialize (H 0). discriminate.
+  - pose proof (H 0) as H0. cbn in H0. inversion H0; subst. f_equal. apply IH. intros j. apply (H (S j)).
+Qed.
+
+Lemma split_tail {A} m (b xs : list A) : length b = length xs ->
+  (forall j, m <= j -> nth_error b j = nth_error xs j) -> b = firstn m b ++ skipn m xs.
+Proof.
+  intros L H. rewrite <- (firstn_skipn m b) at 1. f_equal. apply list_eq_nth. intros j.
+  rewrite !nth_error_skipn. apply H. lia.
+Qed.
+
+Lemma snoc_length (p : path) k : length (snoc p k) = S (length p).
+Proof. unfold snoc. rewrite app_length. cbn. lia. Qed.
+
+Lemma same_off_list K xs W : same_off K (VList xs) W ->
+  exists b, W = VList b /\ length xs = length b /\ forall j, ~ In (ik j) K -> nth_error xs j = nth_error b j.
+Proof. destruct W; cbn; try contradiction. intros [H1 H2]. eexists; split; [reflexivity|]. split; assumption. Qed.
+
+Lemma child_items_perm K l l' : Permutation l l' -> child_items K l -> child_items K l'.
+Proof. intros HP H x Hx. apply H. eapply Permutation_in; [apply Permutation_sym; exact HP|exact Hx]. Qed.
+
+Section ListGood.
+Variable hatom : atom -> pystr.
+Variable udiff : pystr -> pystr -> pystr.
+Variable ops : path -> list value -> list value -> list opcode.
+Variable c : cfg.
+Variable conv : ty -> value -> option value.
+Variables bidir always : bool.
+Variables T1 T2 : value.
+Variable q : path.
+Notation D := (D hatom udiff ops c conv bidir always T1 T2).
+Notation DL := (DL hatom udiff ops c conv bidir always T1 T2 q).
+Notation Good := (Good hatom udiff ops c conv bidir always).
+Notation GoodD := (GoodD conv bidir).
+Notation irun := (irun conv bidir).
+Notation run_passes := (run_passes conv bidir).
+Notation finish := (finish conv bidir).
+
+Lemma DL_moved xs : forall ys i,
+  (forall k x y, nth_error xs k = Some x -> nth_error ys k = Some y -> d_moved (D x y (snoc q (PIdx (i + k)))) = []) ->
+  d_moved (DL i xs ys) = [].
+Proof.
+  induction xs as [|x xs IH]; intros ys i H.
+  - unfold DeltaListNode.DL, GL. cbn [go_list fst snd]. rewrite mutual_added, added_from_eq.
+    unfold to_delta. cbn [d_moved]. apply flat_map_map_nil. reflexivity.
+  - destruct ys as [|y ys].
+    + unfold DeltaListNode.DL, GL. cbn [go_list fst snd]. rewrite mutual_removed, removed_from_eq.
+      unfold to_delta. cbn [d_moved]. apply flat_map_map_nil. reflexivity.
+    + rewrite DL_cons. cbn [dapp d_moved]. pose proof (H 0 x y eq_refl eq_refl) as H0. rewrite Nat.add_0_r in H0.
+      rewrite H0. cbn [app]. apply IH. intros k x0 y0 Hx Hy. replace (S i + k) with (i + S k) by lia. apply H; assumption.
+Qed.
+
+Definition S0 (xs : list value) : atom -> st :=
+  fun k => match k with
+           | AInt z => mkSt (nth (Z.to_nat z) xs (VAtom ANone)) [] 0
+           | _ => mkSt (VAtom ANone) [] 0
+           end.
+
+Lemma S0_ik xs i x : nth_error xs i = Some x -> S0 xs (ik i) = mkSt x [] 0.
+Proof. intros H. unfold S0, ik. rewrite Nat2Z.id. rewrite (nth_error_nth xs i _ H). reflexivity. Qed.
+
+Lemma Rel_init xs m : m <= length xs -> Rel (Kof m) (mkSt (VList xs) [] 0) (S0 xs).
+Proof.
+  intros L. unfold Rel. cbn [root post errs]. repeat split.
+  - cbn [sepK]. intros k Hk. apply Kof_In in Hk as (i & -> & Hi). exists i. split; [reflexivity|lia].
+  - intros k Hk. apply Kof_In in Hk as (i & -> & Hi). rewrite get_item_list_ik.
+    destruct (nth_error xs i) eqn:E; [|apply nth_error_None in E; lia]. rewrite (S0_ik xs i v E). reflexivity.
+  - intros k Hk. apply Kof_In in Hk as (i & -> & Hi).
+    destruct (nth_error xs i) eqn:E; [|apply nth_error_None in E; lia]. rewrite (S0_ik xs i v E). reflexivity.
+  - intros p [].
+Qed.
+
+Theorem list_node_good xs ys :
+  resolve T1 q = Some (VList xs) -> resolve T2 q = Some (VList ys) ->
+  forallb wf ys = true -> forallb wf xs = true ->
+  (forall k x y, nth_error xs k = Some x -> nth_error ys k = Some y -> Good x y (snoc q (PIdx k))) ->
+  GoodD (DL 0 xs ys) (length q) (VList xs) (VList ys).
+Proof.
+  intros R1 R2 Wy Wx HG.
+  assert (HGD : forall k x y, nth_error xs k = Some x -> nth_error ys k = Some y ->
+            DeltaGood.GoodD conv bidir (D x y (snoc q (PIdx k))) (S (length q)) x y).
+  { intros k x y Hx Hy. rewrite <- (snoc_length q (PIdx k)). apply (HG k x y Hx Hy).
+    - eapply resolve_seq_item; [exact R1|reflexivity|exact Hx].
+    - eapply resolve_seq_item; [exact R2|reflexivity|exact Hy]. }
+  split.
+  { apply DL_moved. intros k x y Hx Hy. cbn [Nat.add]. apply (HGD k x y Hx Hy). }
+  intros P HA.
+  set (m := Nat.min (length xs) (length ys)).
+  destruct (DL_struct hatom udiff ops c conv bidir always T1 T2 q xs ys 0) as (Sa & Sb & Sc).
+  fold m in Sb.
+  (* the nine lists *)
+  destruct (Sb 0) as (c1 & E1 & C1). destruct (Sb 1) as (c2 & E2 & C2). destruct (Sb 2) as (c3 & E3 & C3).
+  destruct (Sb 3) as (c4 & E4 & C4). destruct (Sb 4) as (c5 & E5 & C5). destruct (Sb 5) as (c6 & E6 & C6).
+  destruct (Sb 6) as (c7 & E7 & C7). destruct (Sb 7) as (c8 & E8 & C8). destruct (Sb 8) as (c9 & E9 & C9).
+  unfold tailj in E1, E2, E3, E4, E5, E6, E7, E8, E9. fold m in E6, E7. cbn [Nat.add] in E6, E7.
+  rewrite app_nil_r in E1, E2, E3, E4, E5, E8, E9.
+  pose proof (Arr_restrict) as AR.
+  remember (sbase (length q) (DL 0 xs ys)) as B eqn:EB.
+  assert (LB : length B = 9) by (subst B; reflexivity).
+  destruct B as [|b1 [|b2 [|b3 [|b4 [|b5 [|b6 [|b7 [|b8 [|b9 [|]]]]]]]]]]; try discriminate LB.
+  cbn [nth] in E1, E2, E3, E4, E5, E6, E7, E8, E9. subst b1 b2 b3 b4 b5 b6 b7 b8 b9.
+  destruct P as [|q1 [|q2 [|q3 [|q4 [|q5 [|q6 [|q7 [|q8 [|q9 [|]]]]]]]]]]; try contradiction.
+  pose proof HA as HA0.
+  cbn in HA. destruct HA as (-> & -> & -> & -> & -> & [P6 D6] & [P7 D7] & -> & [P9 D9]).
+  (* passes 1-5 *)
+  assert (Lm1 : m <= length xs) by (unfold m; lia). assert (Lm2 : m <= length ys) by (unfold m; lia).
+  pose proof (Rel_init xs m Lm1) as R0.
+  destruct (rel_passes_children conv bidir (Kof m) [c1; c2; c3; c4; c5] _ _
+              (Forall_cons _ C1 (Forall_cons _ C2 (Forall_cons _ C3 (Forall_cons _ C4 (Forall_cons _ C5 (Forall_nil _)))))) R0)
+    as [R5 O5].
+  cbn [root] in O5. apply same_off_list in O5 as (b5 & Hb5 & L5 & N5).
+  set (s5 := run_passes [c1; c2; c3; c4; c5] (mkSt (VList xs) [] 0)) in *.
+  assert (Hs5 : exists b0, root s5 = VList (b0 ++ skipn m xs) /\ length b0 = m).
+  { exists (firstn m b5). split; [|rewrite firstn_length; lia]. rewrite Hb5. f_equal.
+    apply split_tail; [lia|]. intros j Hj. symmetry. apply N5. intros Hin. apply Kof_In in Hin as (i & Ei & Hi).
+    apply ik_inj in Ei. lia. }
+  assert (Wt : forallb wf (skipn m xs) = true).
+  { apply forallb_forall. intros v Hv. eapply forallb_forall in Wx; [exact Wx|]. rewrite <- (firstn_skipn m xs). apply in_or_app. right. exact Hv. }
+  (* pass 6 *)
+  destruct (list_pass6 conv bidir m s5 _ c6 (skipn m xs) q6 R5 Hs5 Wt C6 P6 D6) as [R6 Hs6].
+  (* pass 7 *)
+  destruct (list_pass7 conv bidir m _ _ c7 (skipn m ys) q7 R6 Hs6 C7 P7 D7) as [R7 (b7 & Hb7 & L7)].
+  (* passes 8, 9 *)
+  destruct (rel_passes_children conv bidir (Kof m) [c8; q9] _ _
+              (Forall_cons _ C8 (Forall_cons _ (child_items_perm _ _ _ P9 C9) (Forall_nil _))) R7) as [R9 O9].
+  (* post-processing *)
+  destruct (rel_finish conv bidir (Kof m) _ _ R9) as [R10 O10].
+  set (s9 := run_passes [c8; q9] (irun q7 (irun q6 s5))) in *.
+  assert (Es9 : run_passes [c1; c2; c3; c4; c5; q6; q7; c8; q9] (mkSt (VList xs) [] 0) = s9) by reflexivity.
+  rewrite Es9.
+  (* the children *)
+  assert (CH : forall i x y, nth_error xs i = Some x -> nth_error ys i = Some y ->
+     errs (finish (run_passes (restrictP (ik i) [c1; c2; c3; c4; c5; q6; q7; c8; q9]) (S0 xs (ik i)))) = 0 /\
+     veqb (root (finish (run_passes (restrictP (ik i) [c1; c2; c3; c4; c5; q6; q7; c8; q9]) (S0 xs (ik i))))) y = true).
+  { intros i x y Hx Hy. rewrite (S0_ik xs i x Hx). apply (HGD i x y Hx Hy).
+    pose proof (Sa i x y Hx Hy) as SA. cbn [Nat.add] in SA. rewrite <- SA. apply Arr_restrict. exact HA0. }
+  destruct R10 as (HS10 & HG10 & _ & _ & HE10).
+  pose proof (same_off_trans _ _ _ _ O9 O10) as O. rewrite Hb7 in O.
+  apply same_off_list in O as (b10 & Hb10 & L10 & N10).
+  split.
+  - apply HE10. intros k Hk. apply Kof_In in Hk as (i & -> & Hi).
+    destruct (nth_error xs i) as [x|] eqn:Ex; [|apply nth_error_None in Ex; lia].
+    destruct (nth_error ys i) as [y|] eqn:Ey; [|apply nth_error_None in Ey; lia].
+    apply (CH i x y Ex Ey).
+  - rewrite Hb10, veqb_list. rewrite app_length, skipn_length in L10.
+    apply all2_nth; [lia|]. intros i x y Hx Hy.
+    destruct (Nat.lt_ge_cases i m) as [Hi|Hi].
+    + assert (Hk : In (ik i) (Kof m)) by (apply Kof_In; exists i; split; [reflexivity|exact Hi]).
+      pose proof (HG10 (ik i) Hk) as G. rewrite Hb10, get_item_list_ik, Hx in G. inversion G; subst x.
+      destruct (nth_error xs i) as [x|] eqn:Ex; [|apply nth_error_None in Ex; lia].
+      apply (CH i x y Ex Hy).
+    + assert (E0 : x = y).
+      { rewrite <- N10 in Hx.
+        - rewrite nth_error_app2 in Hx by lia. rewrite nth_error_skipn in Hx. replace (m + (i - length b7)) with i in Hx by lia. congruence.
+        - intros Hin. apply Kof_In in Hin as (i' & Ei & Hi'). apply ik_inj in Ei. lia. }
+      subst y. apply veqb_refl. eapply forallb_forall in Wy; [exact Wy|]. eapply nth_error_In. exact Hy.
+Qed.
+
+End ListGood.
